@@ -13,6 +13,8 @@ import (
 	"runtime"
 	"sort"
 	"strings"
+	"sync/atomic"
+	"time"
 )
 
 // Rand is splitmix64; every random choice of a run derives from one seed.
@@ -103,6 +105,11 @@ type Ctx struct {
 	Evals      int
 	Exhaustive bool
 	Notes      []string
+
+	// CaseTimeout: if one case (from Begin to the next Begin / Finish) takes longer, the code under test is
+	// taken to be stuck (endless loop, deadlock): the case is recorded as a failure and the harness exits.
+	CaseTimeout time.Duration
+	deadline    atomic.Int64 // unix nanoseconds, 0 = no case running
 }
 
 func NewCtx(p *Prop, tier string, seed uint64, out string) *Ctx {
@@ -116,7 +123,30 @@ func NewCtx(p *Prop, tier string, seed uint64, out string) *Ctx {
 	}
 	c.casesF = f
 	c.casesW = bufio.NewWriterSize(f, 1<<20)
+	c.CaseTimeout = 120 * time.Second
+	if tier == "thorough" {
+		c.CaseTimeout = 900 * time.Second
+	}
+	go c.watchdog()
 	return c
+}
+
+// watchdog turns a case that never finishes into a recorded failure with that case as the replay,
+// instead of a hung harness. (A goroutine stuck in a tight loop is pre-empted asynchronously by the Go
+// runtime, so this goroutine keeps running.)
+func (c *Ctx) watchdog() {
+	for {
+		time.Sleep(500 * time.Millisecond)
+		d := c.deadline.Load()
+		if d != 0 && time.Now().UnixNano() > d {
+			c.deadline.Store(0)
+			c.Failures = append([]Failure{{What: fmt.Sprintf("the code under test did not return within %v on this case (endless loop or deadlock)", c.CaseTimeout),
+				Detail: "killed by the harness watchdog", Case: c.cur}}, c.Failures...)
+			c.Stats["oracle_failures"]++
+			c.Finish()
+			os.Exit(0)
+		}
+	}
 }
 
 // N picks a case count by tier.
@@ -139,6 +169,7 @@ func (c *Ctx) Begin(cs any) {
 		panic(err)
 	}
 	c.cur = b
+	c.deadline.Store(time.Now().Add(c.CaseTimeout).UnixNano())
 	c.Evals++
 	// leave a trace of the case being executed: if the code under test kills the process with an
 	// unrecoverable runtime error (stack overflow, fatal "unlock of unlocked mutex", deadlock),
@@ -210,6 +241,7 @@ func (c *Ctx) Fail(what, detail string) {
 func (c *Ctx) Note(s string) { c.Notes = append(c.Notes, s) }
 
 func (c *Ctx) Finish() {
+	c.deadline.Store(0)
 	c.flush()
 	c.casesW.Flush()
 	c.casesF.Close()
